@@ -135,96 +135,136 @@ def gen_plan(rng, out, err, style):
     return plan
 
 
-def run_real(ctx, prop, cov, dist):
+def gen_spec(ctx, r):
+    """one real run: targets, options, per-host payloads and write plans (everything a replay needs)"""
     rng = ctx.rng
+    pool = list(rng.choice(REAL_POOLS))
+    if r % 5 == 4:
+        # many hosts streaming at once, most with an unterminated tail
+        pool = [b"n%d" % i for i in range(1, (33 if ctx.quick() else 65))]
+        k = len(pool)
+    else:
+        rng.shuffle(pool)
+        k = rng.randrange(1, len(pool) + 1)
+    targets = pool[:k]
+    labels = rng.random() < 0.85
+    optK = rng.random() < 0.2
+    big = rng.random() < (0.15 if ctx.quick() else 0.3) and k <= 8
+    style = rng.choice(["whole", "lines", "random", "random", "bytes"])
+    hosts = {}
+    for h in targets:
+        o = gen_payload(rng, h, b"out", big)
+        e = gen_payload(rng, h, b"err", False) if rng.random() < 0.5 else b""
+        if style == "bytes" and len(o) + len(e) > 3000:
+            o, e = o[:2000], e[:500]
+        hosts[h.decode()] = {"out": hexs(o), "err": hexs(e), "plan": gen_plan(rng, o, e, style)}
+    return {"kind": "real-run", "targets": [t.decode() for t in targets], "labels": labels, "K": optK,
+            "fanout": rng.choice([1, 2, 4, 32, 64, 64]), "write_style": style, "hosts": hosts}
+
+
+def exec_spec(ctx, prop, spec, pdsh, writer, d, real):
+    """run pdsh on the spec and judge its stdout/stderr; returns (signature or None, what, case)"""
+    from vlib.common import unhex
+    os.makedirs(d)
+    targets = [t.encode() for t in spec["targets"]]
+    labels, optK = spec["labels"], spec["K"]
+    payloads = {}
+    for name, hs in spec["hosts"].items():
+        o, e = unhex(hs["out"]), unhex(hs["err"])
+        payloads[name.encode()] = (o, e)
+        open(os.path.join(d, name + ".out"), "wb").write(o)
+        open(os.path.join(d, name + ".err"), "wb").write(e)
+        open(os.path.join(d, name + ".plan"), "w").write("\n".join(hs["plan"]) + "\n")
+    cmd = [pdsh, "-R", "exec", "-f", str(spec["fanout"]), "-w", ",".join(spec["targets"])]
+    if not labels:
+        cmd.append("-N")
+    if optK:
+        cmd.append("-K")
+    cmd += [writer, d, "%h"]
+    rc, so, se = run_group(cmd, 40 if ctx.quick() else 120)
+    real["runs"] += 1
+    real["hosts"] += len(targets)
+    real["bytes"] += len(so) + len(se)
+    case = dict(spec, cmd=" ".join(cmd[:-3]) + " relay_writer DIR %h",
+                pdsh_stdout_head=so[:400].decode("latin-1"), pdsh_stderr_head=se[:400].decode("latin-1"), rc=rc)
+    if rc != 0:
+        return ("crash" if rc != -999 else "timeout",
+                "real pdsh run %s: %s" % ("does not end" if rc == -999 else "exits %d" % rc, se[-300:]), case)
+
+    class C:   # minimal view for relay.py_label
+        pass
+    c = C()
+    c.targets, c.optK, c.labels = targets, optK, labels
+    for which, data, sel in (("stdout", so, 0), ("stderr", se, 1)):
+        whole, split, loose = [], [], []
+        for i, h in enumerate(targets):
+            prefix = (relay.py_label(c, i) + b": ") if labels else b""
+            whole.append(records(prefix, payloads[h][sel]))
+            split.append(records(prefix, payloads[h][sel], split_tail=True))
+            loose.append(records(prefix, payloads[h][sel], split_tail=True, split_all=True))
+        if parse_shuffle(data, whole):
+            continue
+        if parse_shuffle(data, split):
+            real["tail_split_raced"] += 1
+            if prop == "C06":
+                return ("tail-record-split",
+                        "real run: %s parses as whole records only if a host's tail label and tail data are "
+                        "taken as separate records (another host's record landed between them)" % which, case)
+            continue
+        # neither: bytes lost/duplicated/reordered, a wrong label, or a record torn apart.  C05 is about the
+        # bytes only: it still holds if the output is an interleaving once every label may stand apart
+        # from the line it precedes (atomicity of records is C06's business)
+        if prop == "C05" and parse_shuffle(data, loose):
+            real["records_torn_but_bytes_complete"] = real.get("records_torn_but_bytes_complete", 0) + 1
+            continue
+        return ("real-bytes-differ" if prop == "C05" else "real-record-torn",
+                "real run: pdsh's %s is not an interleaving of the hosts' labelled records" % which, case)
+    return (None, None, case)
+
+
+def real_tools(ctx):
     copy = ctx.repo_build()
     if not copy:
-        return
-    pdsh = os.path.join(copy, "src/pdsh/pdsh")
+        return None, None
     writer = os.path.join(ctx.scratch, "relay_writer")
     if not ctx.cc(writer, [os.path.join(HARNESS, "relay_writer.c")], san=False, assertions=False, libs=()):
+        return None, None
+    return os.path.join(copy, "src/pdsh/pdsh"), writer
+
+
+def run_real(ctx, prop, cov, dist):
+    pdsh, writer = real_tools(ctx)
+    if not pdsh:
         return
     nruns = 24 if ctx.quick() else 220
     real = {"runs": 0, "hosts": 0, "bytes": 0, "tail_split_raced": 0}
     for r in range(nruns):
-        pool = list(rng.choice(REAL_POOLS))
-        if r % 5 == 4:
-            # many hosts streaming at once, most with an unterminated tail
-            pool = [b"n%d" % i for i in range(1, (33 if ctx.quick() else 65))]
-            k = len(pool)
-        else:
-            rng.shuffle(pool)
-            k = rng.randrange(1, len(pool) + 1)
-        targets = pool[:k]
-        labels = rng.random() < 0.85
-        optK = rng.random() < 0.2
-        big = rng.random() < (0.15 if ctx.quick() else 0.3) and k <= 8
-        style = rng.choice(["whole", "lines", "random", "random", "bytes"])
-        d = os.path.join(ctx.scratch, "real%d" % r)
-        os.makedirs(d)
-        payloads = {}
-        for h in targets:
-            o = gen_payload(rng, h, b"out", big)
-            e = gen_payload(rng, h, b"err", False) if rng.random() < 0.5 else b""
-            if style == "bytes" and len(o) + len(e) > 3000:
-                o, e = o[:2000], e[:500]
-            payloads[h] = (o, e)
-            name = h.decode()
-            open(os.path.join(d, name + ".out"), "wb").write(o)
-            open(os.path.join(d, name + ".err"), "wb").write(e)
-            open(os.path.join(d, name + ".plan"), "w").write("\n".join(gen_plan(rng, o, e, style)) + "\n")
-        cmd = [pdsh, "-R", "exec", "-f", str(rng.choice([1, 2, 4, 32, 64, 64])), "-w", b",".join(targets).decode()]
-        if not labels:
-            cmd.append("-N")
-        if optK:
-            cmd.append("-K")
-        cmd += [writer, d, "%h"]
-        rc, so, se = run_group(cmd, 40 if ctx.quick() else 120)
-        real["runs"] += 1
-        real["hosts"] += k
-        real["bytes"] += len(so) + len(se)
+        spec = gen_spec(ctx, r)
+        sig, what, case = exec_spec(ctx, prop, spec, pdsh, writer, os.path.join(ctx.scratch, "real%d" % r), real)
         cov["evaluations"] += 1
-        case = {"cmd": " ".join(cmd[:-3]) + " relay_writer DIR %h", "targets": [t.decode() for t in targets],
-                "labels": labels, "K": optK, "write_style": style,
-                "payloads": {h.decode(): {"out": hexs(o) if len(o) < 3000 else "len=%d" % len(o),
-                                          "err": hexs(e) if len(e) < 3000 else "len=%d" % len(e)}
-                             for h, (o, e) in list(payloads.items())[:8]},
-                "pdsh_stdout_head": so[:400].decode("latin-1"), "pdsh_stderr_head": se[:400].decode("latin-1"), "rc": rc}
-        if rc != 0:
-            ctx.offender("crash" if rc != -999 else "timeout",
-                         "real pdsh run %s: %s" % ("does not end" if rc == -999 else "exits %d" % rc, se[-300:]), case)
-            real["failed_runs"] = real.get("failed_runs", 0) + 1
-            if real["failed_runs"] >= 2:
-                break           # every hanging run costs its whole timeout
-            continue
-
-        class C:   # minimal view for relay.py_label
-            pass
-        c = C()
-        c.targets, c.optK, c.labels = targets, optK, labels
-        for which, data, sel in (("stdout", so, 0), ("stderr", se, 1)):
-            whole, split, loose = [], [], []
-            for i, h in enumerate(targets):
-                prefix = (relay.py_label(c, i) + b": ") if labels else b""
-                whole.append(records(prefix, payloads[h][sel]))
-                split.append(records(prefix, payloads[h][sel], split_tail=True))
-                loose.append(records(prefix, payloads[h][sel], split_tail=True, split_all=True))
-            if parse_shuffle(data, whole):
-                continue
-            if parse_shuffle(data, split):
-                real["tail_split_raced"] += 1
-                if prop == "C06":
-                    ctx.offender("tail-record-split",
-                                 "real run: %s parses as whole records only if a host's tail label and tail data are "
-                                 "taken as separate records (another host's record landed between them)" % which, case)
-                continue
-            # neither: bytes lost/duplicated/reordered, a wrong label, or a record torn apart.  C05 is about the
-            # bytes only: it still holds if the output is an interleaving once every label may stand apart
-            # from the line it precedes (atomicity of records is C06's business)
-            if prop == "C05" and parse_shuffle(data, loose):
-                real["records_torn_but_bytes_complete"] = real.get("records_torn_but_bytes_complete", 0) + 1
-                continue
-            ctx.offender("real-bytes-differ" if prop == "C05" else "real-record-torn",
-                         "real run: pdsh's %s is not an interleaving of the hosts' labelled records" % which, case)
+        if sig:
+            ctx.offender(sig, what, case)
+            if sig in ("crash", "timeout"):
+                real["failed_runs"] = real.get("failed_runs", 0) + 1
+                if real["failed_runs"] >= 2:
+                    break           # every hanging run costs its whole timeout
     dist["real"] = real
     ctx.log("real runs: %s" % real)
+
+
+def replay_real(ctx, prop, spec, cov, dist, attempts=25):
+    """re-run a recorded real run; thread and kernel scheduling are not recorded, so it is repeated"""
+    pdsh, writer = real_tools(ctx)
+    if not pdsh:
+        return
+    real = {"runs": 0, "hosts": 0, "bytes": 0, "tail_split_raced": 0}
+    for r in range(attempts):
+        sig, what, case = exec_spec(ctx, prop, spec, pdsh, writer, os.path.join(ctx.scratch, "replay%d" % r), real)
+        cov["evaluations"] += 1
+        if sig:
+            ctx.log("replay: attempt %d reproduces: %s" % (r + 1, what))
+            ctx.offender(sig, what, case)
+            break
+    else:
+        ctx.log("replay: the recorded run passes in %d attempts (the schedule of threads is not recorded)" % attempts)
+    dist["real"] = real
